@@ -1,5 +1,5 @@
 (** Request dispatch: one request line in, one response line out. *)
-From Cel.Model Require Export Wire Arith Compare Macros Parser Refs WireData WireSpec WireHeap.
+From Cel.Model Require Export Wire Arith Compare Macros Parser Refs WireData WireSpec WireHeap WireSurface.
 Open Scope string_scope.
 
 (** the context holds exactly the standard functions (hypothesis of C03_refines) *)
@@ -135,6 +135,14 @@ Definition handle (req : sexp) : sexp :=
           | COutOfFuel => Atom "(out-of-fuel)"
           end
       | _, _, _, _ => bad "c03"
+      end
+  | SList [Atom "c04"; t; src] =>
+      match st_of_sexp t, opt_str src with
+      | Some t', Some s =>
+          let toks_ok := match lex s with Some ts => tks_eqb ts (raw t') | None => false end in
+          tagged "c04" [Atom (if toks_ok && wf_stb t' then "true" else "false");
+                        tagged "ok" [sexp_of_expr (ast t')]]
+      | _, _ => bad "c04"
       end
   | SList [Atom "heap"; SList (Atom "env" :: es); prog] =>
       match opt_map_list env_entry es, hexpr_of_sexp prog with
